@@ -80,8 +80,9 @@ def chunk_frame(ch, cols, case=None):
     vdt = np.dtype(case.get("val_dtype", "int64"))
     d = {"bin1_id": np.array([p[0] for p in ch], dtype=idt),
          "bin2_id": np.array([p[1] for p in ch], dtype=idt)}
-    for k, (nm, _) in enumerate(cols):
-        d[nm] = np.array([p[2][k] for p in ch], dtype=vdt)
+    for k, (nm, tok) in enumerate(cols):
+        # a column declared float carries float64 values (they may be non-integral); the others the case's value dtype
+        d[nm] = np.array([p[2][k] for p in ch], dtype=np.float64 if str(tok).startswith("f") else vdt)
     if case.get("extra_col"):
         d["junk"] = np.arange(len(ch), dtype=np.float64)
     return d if case.get("repr") == "dict" else pd.DataFrame(d)
@@ -656,6 +657,70 @@ def audit_cases(rng):
     return cs
 
 
+# --------------------------------------------------------------------- value dtype x merge schedule
+DTYPE_FAMILIES = {
+    "int32": [("count", 32)],
+    "int64": [("count", 64)],
+    "float64": [("count", "f64")],
+    "float32": [("count", "f32")],
+    "int+float": [("count", 32), ("x", "f64")],
+    "float+int": [("count", "f64"), ("x", 16)],
+}
+
+
+def dtype_grid_cases(rng, thorough):
+    """the independence grid (chunking x chunk order x mergebuf x one pass / two passes) for EVERY value dtype family;
+    float columns carry non-integral multiples of 0.25 (exact in float32/float64, so the in-memory aggregate is exact
+    whatever the schedule) -- a schedule that rounds or truncates partial sums shows up as a wrong pixel"""
+    cs = []
+    for fam, cols in DTYPE_FAMILIES.items():
+        ax = rng.choice(["A4", "B5", "V4"])
+        n = G.nbins(ax)
+        keys = rng.sample(G.all_keys(n, True), 5)
+
+        def val(tok, big=False):
+            if str(tok).startswith("f"):
+                return rng.randint(1, 39) / 4.0 + (0.25 if rng.random() < 0.5 else 0.5)     # never integral
+            return rng.randint(1, 9) * (10 ** 9 if (big and tok == 64) else 1)
+        # 18 records over 5 pixels: every pixel is repeated, so every schedule has partial sums to combine
+        recs = [[k[0], k[1], [val(t, big=True) for _, t in cols]] for k in keys for _ in range(rng.randint(2, 5))]
+        rng.shuffle(recs)
+        N = len(recs)
+
+        def split(k):
+            chunks = [[] for _ in range(k)]
+            for i, r in enumerate(recs):
+                chunks[i % k].append(r)
+            # a pixel may occur once per chunk only (dupcheck): aggregate inside the chunk exactly
+            out = []
+            for ch in chunks:
+                acc = {}
+                for a, b, v in ch:
+                    row = acc.setdefault((a, b), [0] * len(v))
+                    for i, x in enumerate(v):
+                        row[i] += x
+                out.append([[a, b, v] for (a, b), v in sorted(acc.items())])
+            return out
+        grid = [(1, 1, 200, 0)]
+        for order in (0, 1):
+            grid += [(3, 1, 1, order), (3, 1, 2, order), (3, N + 1, 200, order), (3, 1, 200, order)]
+        grid += [(9, 1, 1, 0), (9, 1, 2, 0), (9, 1, 4, 0), (9, N + 1, 3, 1), (9, 1, 200, 1)]
+        if thorough:
+            grid += [(5, 1, 2, 0), (5, 2, 4, 1), (12, 1, 3, 0), (12, 3, 2, 1), (16, 1, 4, 0)]
+        for k, buf, mm, order in grid:
+            chunks = split(k)
+            if order:
+                chunks = chunks[::-1]
+            cs.append(("dtype-grid:" + fam, api_case(ax, True, cols, chunks, buf, mm)))
+    # CLI: cooler load --count-as-float with non-integral counts, few lines per chunk, small --max-merge
+    coo = [[0, 1, 1.25], [3, 4, 0.75], [1, 0, 2.5], [2, 2, 5.75], [4, 3, 2.25], [0, 1, 1.75], [1, 1, 4.5], [0, 1, 0.25],
+           [2, 2, 0.75], [3, 4, 3.25], [1, 1, 1.25]]
+    for chunksize, mm in ((1, 1), (1, 2), (2, 2), (4, 1), (3, 200)):
+        cs.append(("dtype-grid:cli", {"fn": "load", "ax": "B5", "symm": True, "lines": coo, "chunksize": chunksize,
+                                      "mergebuf": 1, "max_merge": mm, "count_as_float": True}))
+    return cs
+
+
 # --------------------------------------------------------------------- history pass: state carried between calls
 def _agg_chunks(raw_chunks, symm, ncols, count_records):
     """what sanitize_pixels(tril_action='reflect') + aggregate_records hand over for each raw chunk"""
@@ -820,6 +885,7 @@ def run(ctx):
     cases += malformed_cases(rng)
     cases += cli_cases(rng, 30 if thorough else 8)
     cases += audit_cases(rng)
+    cases += dtype_grid_cases(rng, thorough)
 
     # known finding (temp files of the FIRST creation of a process survive it): exercised in a fresh
     # interpreter; this process is warmed up with one ordered creation so that every other case is
